@@ -19,9 +19,12 @@ CHECKS = [
     _check("C14", "chain", "fault_enumeration",
            "Seeded search over scenarios (all experimental and legacy samplers, HybridGibbs, legacy Gibbs) and operation/fault "
            "lists: split points, checkpoints through a simulated file system, crash-restart in the same or a new simulated "
-           "process, crashes inside a transition, checkpoints taken from the callback, I/O errors during save, benign observers, "
-           "reinitialise; thorough tier enumerates every checkpoint position of a scenario. Chains are compared bitwise with an "
-           "uninterrupted reference run on the same random tape.",
+           "process (through the checkpoint file or by carrying the state dictionary over), crashes inside a transition, checkpoints "
+           "taken from the callback, I/O errors during save, sample batches written to the simulated disk, benign observers "
+           "(state/history round trips, repr, get_samples), reinitialise followed by a same-length run, warm-up given as one or "
+           "several calls with different tuning frequencies; thorough tier enumerates every checkpoint position of a scenario. "
+           "Every sampler object is compared bitwise with an uninterrupted reference run of its own timeline on the same random "
+           "tape; callbacks, hand-over immutability, lengths and consecutiveness are judged per object.",
            "Trusted: numpy's RandomState get/set_state, pickle, the harness' own tape persistence. Sampling, not proof: a clean batch is evidence.",
            "deterministic simulation: seeded schedule+fault search, crash/restart with durable-state model, bitwise reference-run oracle, ddmin replay",
            "DESIGN.md 3.1"),
@@ -32,8 +35,11 @@ CHECKS.append(_check("C02", "mhkernel", "exploration",
            "MH/CWMH/pCN/MALA the simulator infers the proposal mechanism from the recorded proposal draw and the evaluated "
            "point, computes the exact MH probability from a pure reference density and serves the accept-site uniform just "
            "below / just above it; verdicts per transition (accept iff u<alpha, state and caches untouched on reject, caches "
-           "belong to the new state on accept), re-checked after warm-up/tuning, state round trip, checkpoint reload and "
-           "reinitialise; NaN / -inf injected at proposals must never be accepted.",
+           "belong to the new state on accept), re-checked after warm-up/tuning, state round trip, checkpoint reload, rollback to an "
+           "earlier state on the same object, re-assignment of the scale, re-setting the target, reinitialise, and after the target "
+           "raised in the middle of a transition (interrupt); NaN / -inf (with a NaN gradient) injected at proposals must never be "
+           "accepted. Targets: smooth non-Gaussian reference densities, genuine cuqi Posterior objects, nonlinear-model posteriors "
+           "and (likelihood, prior) tuples for pCN.",
            "Trusted: the law of the proposal noise (C05's business), the reference densities of the zoo. Invariance is inferred "
            "from exact acceptance + untouched state on reject, not measured.",
            "deterministic simulation: adversarial scheduling of the accept-site uniform against a reference MH model, NaN/-inf fault injection, local per-transition oracles",
@@ -99,7 +105,8 @@ CHECKS.append(_check("C08", "nuts", "exploration",
            "integrator, doubling, stop at first U-turn / divergence / non-finite leaf / max depth, (B) the selected state, (C) the "
            "cached log-density and gradient, (D) the acceptance statistic and the dual-averaging step size. Merge and top-level "
            "uniforms are placed adversarially next to the reference's thresholds n''/(n'+n'') and min(1,n'/n); NaN/-inf/+inf leaves "
-           "are injected and must never be selected. The distributional sentence (state after k transitions is again a draw) is not "
+           "are injected and must never be selected; histories include rollback, re-setting the target, interrupts (the target "
+           "raises at an arbitrary leaf) and far-tail starts; the slice level must be finite. The distributional sentence (state after k transitions is again a draw) is not "
            "measured: it is the published theorem about the algorithm the implementation is shown to refine.",
            "Trusted: the reference implementation of the algorithm (90 lines), the zoo's reference densities. Undecided protocol "
            "mismatches are counted, never reported as violations.",
